@@ -1137,14 +1137,28 @@ func c06SharedRun(c *fw.Ctx, b fw.Batch) {
 	}
 	// one detection of a text with a single line of more than 1 MiB (limit 0) first: whatever
 	// the pooled readers / parsers are left with must not be shared by two later detections
-	mimetype.SetLimit(0)
-	mimetype.Detect(append(bytes.Repeat([]byte("a,b;c "), 220000), "\n1,2\n"...))
-	mimetype.Detect(append(append([]byte("[\""), bytes.Repeat([]byte("x"), 1200000)...), "\"]"...))
+	poisonA := append(bytes.Repeat([]byte("a,b;c "), 220000), "\n1,2\n"...)
+	poisonB := append(append([]byte("[\""), bytes.Repeat([]byte("x"), 1200000)...), "\"]"...)
+	poison := func() {
+		mimetype.SetLimit(0)
+		mimetype.Detect(poisonA)
+		mimetype.Detect(poisonB)
+	}
+	poison()
 	ins := c06SharedInputs(c.Rand)
+	// the line-oriented inputs first (right behind the predecessor), and the predecessor again
+	// every 25 inputs: pooled objects do not survive many garbage collections
+	tables := [][]byte{bytes.Repeat([]byte("alpha,beta,gamma\n"), 300), bytes.Repeat([]byte("a\tb\tc\n"), 300), bytes.Repeat([]byte("{\"a\":[1,2,3]}\n"), 200), []byte("a,b\n1,2\n3,4\n")}
+	for k := 0; k < 6; k++ {
+		ins = append(append([][]byte{}, tables...), ins...)
+	}
 	for rep := 0; rep < b.N; rep++ {
-		for _, x := range ins {
+		for i, x := range ins {
 			if len(x) > 20000 {
 				x = x[:20000]
+			}
+			if i%25 == 0 || i < 24 {
+				poison()
 			}
 			lim := []uint32{3072, 3072, 0, 512, uint32(len(x))}[c.Rand.Intn(5)]
 			c06SharedCase(c, x, lim, b.Race, procs)
